@@ -1180,11 +1180,15 @@ static std::vector<ExpStream> expected_streams(const ViewCase &c, bool dc_matche
 }
 
 static const std::vector<std::string> kInstrNames = {"req.count", "req.size", "req_latency", "cpu/util",      "mem-used",
-                                                     "Queue.len", "a",        "disk.io",     "req.count.total", "net-rx"};
+                                                     "Queue.len", "a",        "disk.io",     "req.count.total", "net-rx",
+                                                     "req_count"};
 static const std::vector<std::string> kPatterns   = {"req.*",      "req\\..*",  "[a-z]+\\.count", ".*size",
                                                      "cpu/.*",     "(req|mem).*", "req_latency|mem-used", ".*",
                                                      "[A-Z].*",    "[a-z./_-]+", "req.count(\\.total)?", ".+\\..+",
-                                                     "x.*",        ".*[-/].*",   "[a-z]"};
+                                                     "x.*",        ".*[-/].*",   "[a-z]",
+                                                     // '.' as the only pattern construct (from seeded change C19-w6-1):
+                                                     // they select names that differ from the pattern text at the dot
+                                                     "req.latency", "mem.used",  "cpu.util", "net.rx", "req.count"};
 static const std::vector<std::string> kUnits      = {"", "ms", "By", "1"};
 static const std::vector<Attrs> kAttrSets         = {{},
                                                      {{"k1", "a"}},
